@@ -150,4 +150,41 @@ def parseDoc (d : Node) : Except ErrKind Node :=
   | .error e => .error e
   | .ok a => convertRoot (.mk a true d.children)
 
+/-! ## what the parsers do to the VALUES (table-driven; round-2 audit, M3)
+
+`convert` decides acceptance and stores the default name; what `ContentItem._from_dataset_base` and the fifteen `from_dataset`
+methods do to the attributes they store back is `Gen.srParserStores` (T15j: every store of every parser, with what it does
+to the value).  `class` does not touch the data set's attributes, `default-name` is `withName`, `children` is the recursion
+of `convert`, `rewrap` replaces a code sequence item by the same item as a `CodedConcept` (`CodedConcept.from_dataset(…,
+copy=False)`: keeps every attribute of the code — C17's subject; the correspondence compares every code attribute by
+attribute) and leaves the canonical value unchanged.  Any other store is an UNKNOWN transformation `X` of the value. -/
+
+/-- the stores of the parser of class `cls` (and of the base class) that touch the top-level attribute `kw` in a way the
+model does not know -/
+def unknownStores (cls kw : String) : List String :=
+  (Gen.srParserStores.filter fun r =>
+    (r.1 == cls || r.1 == "ContentItem" || r.1.startsWith "helper:") && r.2.2.1.head? == some kw &&
+      !(["class", "default-name", "children", "rewrap"].contains r.2.2.2.2)).map (·.2.2.2.2)
+
+/-- the attributes of one data set after its parser ran: every unknown store applies the unknown transformation `X` -/
+def storedAttrs (X : String → String → String) (a : Attrs) : Attrs :=
+  let cls := match a.lookup "ValueType" with
+    | none => ""
+    | some vt => (Gen.srContentItemClasses.lookup vt).getD ""
+  a.map fun kv => (kv.1, (unknownStores cls kv.1).foldl (fun v act => X act v) kv.2)
+
+mutual
+def reStore (X : String → String → String) : Node → Node
+  | .mk a hs ch => .mk (storedAttrs X a) hs (reStoreList X ch)
+def reStoreList (X : String → String → String) : List Node → List Node
+  | [] => []
+  | x :: xs => reStore X x :: reStoreList X xs
+end
+
+/-- the conversion with its effect on the values: acceptance and default names by `convertRoot`, values by the table -/
+def convertRootT (X : String → String → String) (t : Node) : Except ErrKind Node := (convertRoot t).map (reStore X)
+
+/-- `_SR.from_dataset` with its effect on the values -/
+def parseDocT (X : String → String → String) (d : Node) : Except ErrKind Node := (parseDoc d).map (reStore X)
+
 end HdVerif.SRTree
